@@ -287,6 +287,8 @@ func (w *Walker) walkSelection(parentDef *ast.Definition, it ast.Selection) {
 		if def != nil && !w.validatedFragmentSpreads[def.Name] {
 			// prevent infinite recursion
 			w.validatedFragmentSpreads[def.Name] = true
+			// the variables used by the directives of the fragment definition are uses by this operation
+			w.walkDirectives(nextParentDef, def.Directives, ast.LocationFragmentDefinition)
 			w.walkSelectionSet(nextParentDef, def.SelectionSet)
 		}
 
